@@ -69,6 +69,8 @@ pub fn run(ctx: &mut Ctx) {
         if ctx.take().is_none() { continue }
         case(ctx, &format!("int {} {} {}", a, op, b), binop(op, int(*a), int(*b)));
         case(ctx, &format!("int {}.{}({})", a, op, b), mcall(int(*a), op, vec![int(*b)]));
+        // operands that reach the operation through variables (nothing for a compiler to fold)
+        case_in(ctx, &format!("int {} {} {} [variables]", a, op, b), vec![let_("x", int(*a)), let_("y", int(*b)), print("[", vec![]), print("~", vec![binop(op, var("x"), var("y"))]), print("]", vec![])]);
     } } }
     ctx.stage("cross-kind tables (6 receiver kinds x 6 argument kinds x 13 operators + get/set + arities)");
     let vals: Vec<(&str, E)> = vec![("null", E::Null), ("int", int(7)), ("zero", int(0)), ("one", int(1)), ("true", E::Bool(true)), ("false", E::Bool(false)),
